@@ -17,6 +17,9 @@ structure St (K : Type) where
   build : Option (PBuild K) := none
   prob : Option (Problem K) := none
   obj : Option Obj := none
+  /-- `answer prob obj`, computed once per configuration (a pure function of the two: caching it does not change
+      any output, it only avoids one factorisation per query line) -/
+  ans : Option (Except ErrKind (Answer K)) := none
 
 variable {K : Type} [Scalar K] [Wire K]
 
@@ -31,11 +34,53 @@ def answer (p : Problem K) (o : Obj) : Except ErrKind (Answer K) :=
   | .solver => solverOf o.alg { p with reg := o.reg }
   | .adj => adjSolve o.alg { p with reg := o.reg }
 
+/-- the problem the solver object of `o` is given: the input itself (solver entry) or, for the full
+    solvers inside `Adj`, the homogenised dense system `(A_dot, b_dot)` -/
+def solverInput (p : Problem K) (o : Obj) : Option (Problem K) :=
+  match o.entry, o.alg with
+  | .solver, _ => some { p with reg := o.reg }
+  | .adj, .env => some { p with reg := AdjM.regOf o.reg }
+  | .adj, _ => match AdjM.homogenise { p with reg := o.reg } with
+    | .ok (Ad, bd) => some (AdjM.dotProblem p Ad bd (AdjM.regOf o.reg))
+    | .error _ => none
+
+open Chol Dn in
+/-- MODEL-ONLY probe (the harness cannot answer it: `g_perm` is a local of `AdjCholDec::solve`), used by the
+    plugins to measure the case mix: the pivot order of the Gram–Schmidt loop over the null-space vectors.
+    `gstrace <nullity> swaps <k> offid <0|1> perm <g_perm(1..nullity), 1-based>`;
+    `offid 1`: at some pass the positions still to be scanned held `g_perm(i) ≠ i` (only then does it matter
+    whether the search reads column `g_perm(i)` or column `i`).  The loop is `Chol.gsStep`, the model's own. -/
+def gsTrace (p : Problem K) : String :=
+  match Chol.regList p.n p.reg with
+  | none => "gstrace none"
+  | some S =>
+    let n := p.n
+    let A := p.dense
+    let f := Chol.factor n n 0 (pmk n id) (normalMat p.m n A)
+    let N0 := n - f.nullity
+    if f.nullity = 0 then "gstrace 0" else
+    let x0 := solveX0 n N0 f.perm f.mat (normalRhs p.m n A p.rhs)
+    let G0 := gInit n N0 f.nullity f.perm f.mat x0
+    let nul := f.nullity
+    let rec go : Nat → Nat → Array Nat → Array (Array K) → Nat → Bool → String
+      | 0, _, gperm, _, sw, off => fin nul gperm sw off "ok"
+      | fuel + 1, column, gperm, G, sw, off =>
+        let c0 := pget gperm column
+        let p0 := dotS S (G.getD c0 #[]) (G.getD c0 #[])
+        if p0 < (sTol : K) then fin nul gperm sw off "refused" else
+        let off' := off || (List.range' (column + 1) (nul - (column + 1))).any fun i => pget gperm i != i
+        let st := gsStep n nul S column gperm G p0
+        go fuel (column + 1) st.1 st.2.1 (if st.1 == gperm then sw else sw + 1) off'
+    go nul 0 (pmk (nul + 1) id) G0 0 false
+where
+  fin (nul : Nat) (gperm : Array Nat) (sw : Nat) (off : Bool) (how : String) : String :=
+    s!"gstrace {nul} {how} swaps {sw} offid {if off then 1 else 0} perm" ++
+      (List.range nul).foldl (fun s i => s ++ s!" {Dn.pget gperm i + 1}") ""
+
 def nat2 (a b : String) : Option (Nat × Nat) := do
   let i ← a.toNat?; let j ← b.toNat?; some (i, j)
 
-def query (p : Problem K) (o : Obj) (ts : List String) : Option String :=
-  let a := answer p o
+def query (a : Except ErrKind (Answer K)) (ts : List String) : Option String :=
   match ts with
   | ["x"] => some (showE (fun (r : Answer K) => match r.xErr with
       | some e => "throw " ++ e.name
@@ -51,21 +96,24 @@ def query (p : Problem K) (o : Obj) (ts : List String) : Option String :=
   | ["cond"] => some (showE (fun x => "val " ++ Wire.render x) (a >>= fun r => r.cond))
   | _ => none
 
+def setObj (s : St K) (p : Problem K) (o : Obj) : St K := { s with obj := some o, ans := some (answer p o) }
+def cur (s : St K) (p : Problem K) (o : Obj) : Except ErrKind (Answer K) := s.ans.getD (answer p o)
+
 def step (s : St K) (line : String) : St K × String :=
   let ts := tokens line
   match ts with
   | [] => (s, "")
   | ["problem", m, n] =>
     match m.toNat?, n.toNat? with
-    | some m, some n => ({ build := some { m := m, n := n }, prob := none, obj := none }, "")
+    | some m, some n => ({ build := some { m := m, n := n }, prob := none, obj := none, ans := none }, "")
     | _, _ => (s, "bad-op")
   | _ =>
   match s.build with
   | some b =>
     if ts = ["end"] then
       match b.finish with
-      | some p => ({ build := none, prob := some p, obj := none }, "ok")
-      | none => ({ build := none, prob := none, obj := none }, "bad-op")
+      | some p => ({ build := none, prob := some p, obj := none, ans := none }, "ok")
+      | none => ({ build := none, prob := none, obj := none, ans := none }, "bad-op")
     else match b.feed ts with
       | some b' => ({ s with build := some b' }, "")
       | none => (s, "bad-op")
@@ -78,24 +126,30 @@ def step (s : St K) (line : String) : St K × String :=
     match Alg.parse a, Entry.parse e with
     | some a, some e =>
       if e == .solver && a != .env && !p.unitCov then (s, "bad-op")
-      else ({ s with obj := some ⟨a, e, p.reg⟩ }, "ok")
+      else (setObj s p ⟨a, e, p.reg⟩, "ok")
     | _, _ => (s, "bad-op")
   | _, none => (s, "bad-op")
-  | ["min_x_all"], some o => if o.entry == .solver then ({ s with obj := some { o with reg := .all } }, "ok") else (s, "bad-op")
+  | ["min_x_all"], some o => if o.entry == .solver then (setObj s p { o with reg := .all }, "ok") else (s, "bad-op")
   | "min_x" :: k :: rest, some o =>
     match k.toNat?, rest.mapM (·.toNat?) with
-    | some kn, some l => if o.entry == .solver ∧ l.length = kn then ({ s with obj := some { o with reg := .subset l } }, "ok") else (s, "bad-op")
+    | some kn, some l => if o.entry == .solver ∧ l.length = kn then (setObj s p { o with reg := .subset l }, "ok") else (s, "bad-op")
     | _, _ => (s, "bad-op")
   | ["reset"], some _ => (s, "ok")
+  | ["gstrace"], some o =>
+    if o.alg == .chol then
+      match solverInput p o with
+      | some q => (s, gsTrace q)
+      | none => (s, "gstrace none")
+    else (s, "bad-op")
   | ["set_alg", a], some o =>
     match Alg.parse a with
-    | some a => if o.entry == .adj then ({ s with obj := some { o with alg := a } }, "ok") else (s, "bad-op")
+    | some a => if o.entry == .adj then (setObj s p { o with alg := a }, "ok") else (s, "bad-op")
     | none => (s, "bad-op")
-  | "fresh" :: q, some o => (s, (query p o q).getD "bad-op")
+  | "fresh" :: q, some o => (s, (query (cur s p o) q).getD "bad-op")
   | q, some o =>
     -- Adj does not expose q0xx/qbx/lindep/cond/min_x
     if o.entry == .adj ∧ (q.head? ∈ [some "q0xx", some "qbx", some "lindep", some "cond"]) then (s, "bad-op")
-    else (s, (query p o q).getD "bad-op")
+    else (s, (query (cur s p o) q).getD "bad-op")
 
 def main (args : List String) : IO Unit :=
   match args with
